@@ -39,6 +39,10 @@ pub struct Case {
     /// loss is first noticed in poll_ready (write buffer over its back-pressure boundary)
     #[serde(default)]
     pub big_feed: bool,
+    /// requestor: a clone made before the outages is used concurrently with the original
+    /// after each recovery (both share one pending-request table)
+    #[serde(default)]
+    pub clones: bool,
 }
 
 async fn wait_until(dl: Duration, mut f: impl FnMut() -> bool) -> bool {
@@ -88,6 +92,7 @@ async fn run_inner(certs: &Certs, c: &Case) -> Outcome {
     let mut publisher = None;
     let mut subscriber = None;
     let mut requestor = None;
+    let mut requestor_clone = None;
     let mut replier_task = None;
     match kind {
         0 => {
@@ -106,7 +111,7 @@ async fn run_inner(certs: &Certs, c: &Case) -> Outcome {
         }
         2 => {
             let b = client.requestor(topic).with_request_encoder(StringCodec).with_reply_decoder(StringCodec).with_request_timeout(Duration::from_millis(300));
-            match b { Ok(b) => match b.open().await { Ok(r) => requestor = Some(r), Err(e) => return Outcome::fail("open-failed", format!("{e}")) }, Err(e) => return Outcome::Inconclusive(format!("{e}")) }
+            match b { Ok(b) => match b.open().await { Ok(r) => { if c.clones { requestor_clone = Some(r.clone()); } requestor = Some(r) }, Err(e) => return Outcome::fail("open-failed", format!("{e}")) }, Err(e) => return Outcome::Inconclusive(format!("{e}")) }
         }
         _ => {
             let rep = client.replier(topic).with_request_decoder(StringCodec).with_reply_encoder(StringCodec).with_handler(|s: String| async move { Ok::<_, String>(format!("ans:{s}")) }).open().await;
@@ -166,6 +171,8 @@ async fn run_inner(certs: &Certs, c: &Case) -> Outcome {
         let expect_exhaust = k >= m;
         let expect_fatal = fatal && k < m;
         // ---- drive the stream through the outage ----
+        let drive_t0 = Instant::now();
+        let mut main_attempts: Option<usize> = None;
         let outcome: Result<(), String> = match kind {
             0 => {
                 let p = publisher.as_mut().unwrap();
@@ -271,6 +278,43 @@ async fn run_inner(certs: &Certs, c: &Case) -> Outcome {
                     if attempt == 0 && matches!(&res, Err(e) if e.contains("timed out")) { continue; }
                     break;
                 }
+                // registrations made for the original's own recovery (the clone re-registers too)
+                main_attempts = Some(sh.lock().unwrap().regs.len() - regs_before);
+                if res.is_ok() {
+                    if let Some(q2) = requestor_clone.as_mut() {
+                        // the clone recovers on its own request; afterwards both are used at once
+                        let mut warm = Err("?".to_string());
+                        for attempt in 0..2 {
+                            let body = format!("o{oi}-clone-try{attempt}");
+                            warm = match tokio::time::timeout(Duration::from_secs(20), q2.request(body.clone())).await {
+                                Err(_) => Err(HANG.into()),
+                                Ok(Err(e)) => Err(e.to_string()),
+                                Ok(Ok(v)) => if v == format!("echo:{body}") { Ok(()) } else { Err(format!("WRONG reply {v}")) },
+                            };
+                            if attempt == 0 && matches!(&warm, Err(e) if e.contains("timed out")) { continue; }
+                            break;
+                        }
+                        if let Err(e) = warm {
+                            res = Err(format!("clone: {e}"));
+                        } else {
+                            for round in 0..3 {
+                                let (ba, bb) = (format!("o{oi}-A{round}"), format!("o{oi}-B{round}"));
+                                let (ra, rb) = tokio::join!(
+                                    tokio::time::timeout(Duration::from_secs(20), q.request(ba.clone())),
+                                    tokio::time::timeout(Duration::from_secs(20), q2.request(bb.clone()))
+                                );
+                                for (who, body, r) in [("original", ba, ra), ("clone", bb, rb)] {
+                                    match r {
+                                        Err(_) => res = Err(HANG.into()),
+                                        Ok(Err(e)) => res = Err(format!("concurrent request on the {who} after recovery: {e}")),
+                                        Ok(Ok(v)) => if v != format!("echo:{body}") { res = Err(format!("WRONG reply: the {who} asked {body:?} and got {v:?}")) },
+                                    }
+                                }
+                                if res.is_err() { break; }
+                            }
+                        }
+                    }
+                }
                 res
             }
             _ => {
@@ -293,9 +337,10 @@ async fn run_inner(certs: &Certs, c: &Case) -> Outcome {
                 } else { Ok(()) }
             }
         };
+        let drive_elapsed = drive_t0.elapsed();
         let (attempts, same) = {
             let g = sh.lock().unwrap();
-            (g.regs.len() - regs_before, g.regs[regs_before..].iter().all(|(f, _)| *f == first_reg))
+            (main_attempts.unwrap_or(g.regs.len() - regs_before), g.regs[regs_before..].iter().all(|(f, _)| *f == first_reg))
         };
         let ctx_s = format!("outage {oi} (stream {}, max_attempts {m}, {k} failing attempt(s) by {}, fatal={fatal}): ", labels[0], if o.drop_conn { "dropped connection" } else { "retryable refusal" });
         match (&outcome, expect_exhaust, expect_fatal) {
@@ -315,6 +360,9 @@ async fn run_inner(certs: &Certs, c: &Case) -> Outcome {
                 return Outcome::fail("survived-unrecoverable", format!("{ctx_s}the stream carried on although exhaustion={expect_exhaust} fatal={expect_fatal} was scripted ({attempts} attempts)"));
             }
             (Err(e), true, _) => {
+                if e.contains("Too many") && drive_elapsed > Duration::from_secs(15) && (kind == 0 || kind == 1) {
+                    return Outcome::fail("exhaustion-reported-late", format!("{ctx_s}too-many-retries was only delivered after {drive_elapsed:?}, i.e. when the harness's own 20 s timer re-polled the stream: the stream did not wake its task when the budget ran out (a task with no other wake source would hang)"));
+                }
                 if !e.contains("Too many") {
                     return Outcome::fail("wrong-error-on-exhaustion", format!("{ctx_s}expected too-many-retries, got: {e}"));
                 }
@@ -350,6 +398,7 @@ async fn run_inner(certs: &Certs, c: &Case) -> Outcome {
     if fatal_seen { labels.push("unrecoverable-answer"); }
     if m == 0 { labels.push("max-attempts-0"); }
     if c.big_feed && kind == 0 { labels.push("publisher-pipelined-16KiB-after-cut"); }
+    if c.clones && kind == 2 { labels.push("requestor-clones-used-concurrently"); }
     Outcome::pass(labels, survived >= 2 || any_failing_attempt || exhausted)
 }
 
@@ -361,8 +410,8 @@ pub fn strategy() -> BoxedStrategy<Case> {
         // many clean outages in a row: distinguishes a per-outage from a lifetime budget
         2 => proptest::collection::vec(outage_ok, 3..7),
     ];
-    (0u8..4, prop_oneof![1 => Just(0u8), 6 => 1u8..5], 0u8..3, 0u8..5, proptest::option::of(0u8..8), outages, any::<u16>(), 0u8..4, 0u8..3, prop::bool::weighted(0.3))
-        .prop_map(|(kind, max_attempts, backoff, step_ms, cap_ms, outages, retention, ops, topic, big_feed)| Case { kind, max_attempts, backoff, step_ms, cap_ms, outages, retention, ops, topic, big_feed })
+    (0u8..4, prop_oneof![1 => Just(0u8), 6 => 1u8..5], 0u8..3, 0u8..5, proptest::option::of(0u8..8), outages, any::<u16>(), 0u8..4, 0u8..3, prop::bool::weighted(0.3), any::<bool>())
+        .prop_map(|(kind, max_attempts, backoff, step_ms, cap_ms, outages, retention, ops, topic, big_feed, clones)| Case { kind, max_attempts, backoff, step_ms, cap_ms, outages, retention, ops, topic, big_feed, clones })
         .boxed()
 }
 
